@@ -1,5 +1,6 @@
 SPECIFICATION Spec
 CONSTANTS
+  Pairwise = FALSE
   MaxLabel = 63
   MaxName = 255
 INVARIANT RefAgrees
